@@ -20,6 +20,16 @@ parameter), every slice with bounds in {omitted, -4..4}, `v in`, `v not in`, `[v
 equality with a list. Queries are generator expressions (constant index / slice operations on arrays also as query text, where
 a literal -1 is a unary minus instead of a constant). Everything runs on SQLite WITH JSON1 and with provider.json1_available = False (py_json_* path).
 
+Two operations in ONE query (pair_ops / array_pair_ops): every unordered pair of paths (a path also with itself)
+from the catalogue of all paths of length 1 and of length 2 starting with 'a' or 0 over the items a, "b c", 0, 1
+(quick, 12 paths) / a, "b c", "1", 0, 1, -1 (thorough, 18 paths) x every choice of which path positions are
+external parameters (quick: at most one per path, thorough: every subset) x parameter naming {every occurrence
+its own name, equal values share ONE name} x query form: the tuple (x.id, path1, path2), and (at most one parameter
+per path) the conjunctions `p1 and p2`, `p1 is not None and p2 is None` (thorough also `p1 == 'x' and p2 != 'x'`,
+`not p1 and p2 is not None`). Arrays: (x.arr[i], x.arr[j]) for i, j in {-1, 0, 2}, each literal or parameter,
+distinct or shared name. Each item of the tuple is judged like the single projection, a conjunction by the
+three-valued conjunction of the single expectations.
+
 Oracle: the operation on the decoded value, typed three-valued: a missing key / index / a null is None, a
 comparison with None is unknown (row not selected; for != both answers are accepted), bool(None) is False. Where
 Python itself raises (ordering str against number, len of a number, `in` on a number, index into a string) or
@@ -734,10 +744,14 @@ def run(ctx):
     ctx.cov['operations'] = len(ops)
     ctx.cov['json_operations'] = len(json_ops(quick))
     ctx.cov['array_operations'] = len(array_ops())
+    ctx.cov['pair_operations'] = len(pair_ops(quick))
+    ctx.cov['pair_operations_sharing_a_parameter_name'] = sum(1 for o in pair_ops(quick) if o['share'] == 'shared')
+    ctx.cov['array_pair_operations'] = len(array_pair_ops())
     ctx.guard('documents', len(docs), 200 if quick else 2500)
     ctx.guard('evaluations', ev, 100000)
     ctx.guard('percent of evaluations answered', int(100.0 * c.get('answered', 0) / max(1, ev)), 50)
     ctx.guard('agreements on a present value', c.get('nontrivial', 0), 20000)
+    ctx.guard('agreements of two-path queries on a present value', c.get('nontrivial_pairs', 0), 50000)
     ctx.guard('operations run with the Python fallback', c.get('operations', 0), 2 * len(ops))
     ctx.assume('SQLite 3.40 with JSON1; the fallback path is selected by provider.json1_available = False on the provider instance of a second Database')
     ctx.assume('documents and arrays are stored through Pony and read back equal before any operation is judged (C07 covers storage)')
